@@ -201,13 +201,13 @@ func GetSignerFromPEMBytes(privateKey []byte) (crypto.Signer, error) {
 }
 
 // ValidatePublicKeyStrenght checks if the "strength" of the key is good enough to be considered secure
-// At this moment it checks for sizes of parameters only. For RSA it means bits>=2041 && exponent>=65537,
+// At this moment it checks for sizes of parameters only. For RSA it means bits>=2048 && exponent>=65537,
 // For EC curves it means bitsize>=256. ec25519 is considered secure. All other public keys are not
 // considered secure.
 func ValidatePublicKeyStrength(pub interface{}) (bool, error) {
 	switch k := pub.(type) {
 	case *rsa.PublicKey:
-		if k.Size() < 256 { //ksize is in bytes
+		if k.N.BitLen() < 2048 {
 			return false, nil
 		}
 
